@@ -86,7 +86,7 @@ def run(ctx):
     rng = ctx.rng
 
     corpus = X.corpus()
-    nobj = ctx.n(170, 5000)
+    nobj = ctx.n(170, 2000)
     objs = [c[1] for c in corpus] + [X.gen_obj(rng) for _ in range(nobj)]
     for o in objs:
         ctx.count("object:%s" % o["t"])
@@ -145,7 +145,7 @@ def run(ctx):
                 break
 
     # ------------------------------------------------------------------ level 2: time_range_match, time_range_fill
-    per = ctx.n(9, 24)
+    per = ctx.n(9, 20)
     mcases, fcases = [], []
     for idx, o in enumerate(objs):
         vo = parsed[id(o)]
@@ -226,14 +226,14 @@ def build_filters(variant, comp, r):
     if variant == "range-at-cal":
         return [cal([tr])]
     if variant == "prop-at-cal":
-        return [cal([["pf", 1], ["cf", comp, [tr]]])]
+        return [cal([["pf", 2], ["cf", comp, [tr]]])]
     raise AssertionError(variant)
 
 
 def report_level(ctx, objs, corpus, first_violation):
     rng = ctx.rng
     batch_size = 10
-    nbatches = ctx.n(6, 60)
+    nbatches = ctx.n(6, 40)
     qper = ctx.n(16, 40)
     pool = list(objs)
     rcases = []
